@@ -510,7 +510,15 @@ func (nw *Network) startNode(sn *SimNode, opts NodeOpts, current, genesis []*pee
 	var store hg.Store
 	switch opts.Store {
 	case "badger":
-		if sn.DBPath == "" {
+		if sn.Store != nil && !sn.StoreClosed && sn.Opts.Store == "badger" {
+			// the previous incarnation's process is gone: release its database handle
+			func() {
+				defer func() { recover() }()
+				sn.Store.Close()
+			}()
+		}
+		if sn.DBPath == "" || (!opts.Bootstrap && sn.Incarnation > 0) {
+			// a restart without bootstrap is a node that lost its data
 			sn.DBPath = filepath.Join(nw.TmpDir, fmt.Sprintf("db-%d-%d", sn.Idx, sn.Incarnation))
 		}
 		conf.Store = true
@@ -536,6 +544,7 @@ func (nw *Network) startNode(sn *SimNode, opts NodeOpts, current, genesis []*pee
 	sn.Store = store
 	sn.trans = tr
 	sn.Incarnation++
+	sn.StoreClosed = false
 	sn.InsertFailedStep = -1
 	sn.known = map[uint32]int{}
 	sn.has = map[string]bool{}
